@@ -349,3 +349,55 @@ spec fn rule_scope(z: TimeZoneRef, q: FindQuery) -> bool {
         _ => true,
     }
 }
+
+// C06 in a DST-rule zone: entry k reports the gap of the walk's j-th instant T_j (a start or end instant of the rule in the years
+// y-1..y+1, after the last table transition): both date-times at T_j, the clocks of the segments before / after it, C14 invariant,
+// T_j + a <= searched time < T_j + b
+spec fn walk_gap(q: FindQuery, a: AlternateTime, sorted: bool, t: Seq<int>, p0: int, j: int, k: FoundDateTimeKind) -> bool {
+    match k {
+        FoundDateTimeKind::Skipped { before_transition, after_transition } => {
+            &&& 0 <= j <= 5
+            &&& p0 < t[j]
+            &&& before_transition.unix_time == t[j]
+            &&& after_transition.unix_time == t[j]
+            &&& before_transition.nanoseconds == q.nanoseconds
+            &&& after_transition.nanoseconds == q.nanoseconds
+            &&& before_transition.local_time_type == seg_type(a, sorted, j)
+            &&& after_transition.local_time_type == seg_type(a, sorted, j + 1)
+            &&& dt_inv(before_transition)
+            &&& dt_inv(after_transition)
+            &&& t[j] + before_transition.local_time_type.ut_offset <= q_civil(q) < t[j] + after_transition.local_time_type.ut_offset
+        },
+        FoundDateTimeKind::Normal(_) => false,
+    }
+}
+
+// C06 ("no gap is reported otherwise") for zones with a DST rule: a skipped result is the gap of a table transition or of a rule instant
+spec fn gaps_sound_rule(z: TimeZoneRef, q: FindQuery, a: AlternateTime, sorted: bool, t: Seq<int>, rs: Seq<FoundDateTimeKind>) -> bool {
+    forall|i: int| 0 <= i < rs.len() && (#[trigger] rs[i]) is Skipped ==>
+        (exists|j: int| #[trigger] table_gap(z, q, j, rs[i])) || (exists|j: int| #[trigger] walk_gap(q, a, sorted, t, rule_from(z), j, rs[i]))
+}
+
+// the searched time falls into the gap of the walk's j-th instant
+spec fn walk_gap_cond(q: FindQuery, a: AlternateTime, sorted: bool, t: Seq<int>, p0: int, j: int) -> bool {
+    &&& 0 <= j <= 5
+    &&& p0 < t[j]
+    &&& t[j] + seg_type(a, sorted, j).ut_offset <= q_civil(q) < t[j] + seg_type(a, sorted, j + 1).ut_offset
+}
+
+spec fn has_walk_gap(q: FindQuery, a: AlternateTime, sorted: bool, t: Seq<int>, p0: int, j: int, rs: Seq<FoundDateTimeKind>) -> bool {
+    exists|i: int| 0 <= i < rs.len() && #[trigger] walk_gap(q, a, sorted, t, p0, j, rs[i])
+}
+
+// C06 (completeness) for the rule instants the walk looks at
+spec fn walk_gaps_found(q: FindQuery, a: AlternateTime, sorted: bool, t: Seq<int>, p0: int, rs: Seq<FoundDateTimeKind>, hi: int) -> bool {
+    forall|j: int| 0 <= j < hi && #[trigger] walk_gap_cond(q, a, sorted, t, p0, j) ==> has_walk_gap(q, a, sorted, t, p0, j, rs)
+}
+
+// the DST rule of a zone that has one
+spec fn zone_alt(z: TimeZoneRef) -> AlternateTime {
+    match *z.extra_rule {
+        Some(TransitionRule::Alternate(a)) => a,
+        _ => arbitrary(),
+    }
+}
